@@ -267,7 +267,55 @@ def misuse():
             return x
         return f(1)
 
-    for i, fn in enumerate((d1, d2, d3, d4, d5, d6, d7, d8, d9, d10)):
+    def d11():
+        # explicitly enabled invariant; the constructor uses a public method of the half-built object
+        @icontract.invariant(lambda self: self.v > 0, enabled=True)
+        class A:
+            def __init__(self):
+                self.w = self.helper()
+                self.v = 1
+
+            def helper(self):
+                return 5
+        a = A()
+        return (a.v, a.w, a.helper())
+
+    def d12():
+        @icontract.invariant(lambda self: self.v > 0, enabled=True)
+        class A(icontract.DBC):
+            def __init__(self):
+                self.v = 1
+
+        @icontract.invariant(lambda self: self.z > 0, enabled=True)
+        class B(A):
+            def __init__(self):
+                super().__init__()
+                self.z = 2
+        b = B()
+        return (b.v, b.z)
+
+    def d13():
+        @icontract.invariant(lambda self: self.v > 0, enabled=True)
+        class A:
+            def __init__(self, v):
+                self.v = v
+
+            def dec(self):
+                self.v -= 1
+        a = A(1)
+        a.dec()
+        return a.v
+
+    def d14():
+        @icontract.invariant(lambda self: len(self.items) < 2, enabled=True, check_on=icontract.InvariantCheckEvent.ALL)
+        class A:
+            def __init__(self):
+                self.items = []
+                self.items = [1]
+                self.items = [1, 2]
+        return A().items
+
+    for i, fn in enumerate((d1, d2, d3, d4, d5, d6, d7, d8, d9, d10, d11, d12, d13, d14)):
         attempt("d{}".format(i + 1), fn)
     return res
 
